@@ -268,13 +268,18 @@ def x_fromregex( ctx ):
         ini = src.get( 'state.__init__' )
         ar = ini.args
         dflt = dict( zip( [ a.arg for a in ar.args[len( ar.args ) - len( ar.defaults ):] ], ar.defaults ))
-        cp = [ s_ for s_ in ast.walk( ini ) if isinstance( s_, ast.Assign ) and dotted( s_.targets[0] ) == 'self._terminal' and 'other' in names_in( s_.value ) ]
+        # the copy branch: `if isinstance( name, state ):` - the source state is the first parameter (possibly through an alias local)
+        P0 = ini.args.args[1].arg
+        cb = [ i_ for i_ in ini.body if isinstance( i_, ast.If ) and pmatch( i_.test, 'isinstance( %s, state )' % P0 ) is not None ]
+        alias = { P0 } | { dotted( a_.targets[0] ) for i_ in cb for a_ in i_.body if isinstance( a_, ast.Assign ) and dotted( a_.value ) == P0 }
+        cp = [ s_ for i_ in cb for s_ in i_.body if isinstance( s_, ast.Assign ) and dotted( s_.targets[0] ) == 'self._terminal' ]
+        OTHER = sorted( alias & names_in( cp[0].value ))[0] if cp and alias & names_in( cp[0].value ) else 'other' 
         call_kw = { k.arg: k.value for k in rets[-1].value.elts[-1].keywords }
         tv = try_fold( call_kw['terminal'] ) if 'terminal' in call_kw else try_fold( dflt.get( 'terminal' ), default='?' )
         if cp:
             from .fold import fold, NoFold
             try:
-                got = fold( cp[0].value, { 'terminal': tv, 'other._terminal': True } )
+                got = fold( cp[0].value, { 'terminal': tv, OTHER + '._terminal': True } )
             except NoFold as exc:
                 raise AnalysisError( 'state.__init__: copy of the terminal flag outside the modelled subset: %s' % exc )
             if not got:
